@@ -101,6 +101,22 @@ def run_engine(pid, eng, tier, seed, extra_args=None, replay=False):
         res = {"evaluations": 0, "distinct_nontrivial": 0, "rule": "", "samples": [], "extra": {}, "violations": [],
                "inconclusive": [], "assumptions": [],
                "harness_errors": ["engine %s produced no result (rc=%s, %.0fs): %s" % (name, rc, wall, err[-1500:])]}
+        # The engine hosts the code under test in-process. If it was killed by a panic/abort whose location is in the
+        # repository's own sources (and not in the harness), the death itself is an observation about that code:
+        # report it as a violation keyed on the panic location. Any other death stays a harness error (inconclusive).
+        died = rc != 0 and rc != -999
+        locs = re.findall(r"panicked at (?:/repo/)((?:humphrey[a-z-]*)/src/[^\s:]+):(\d+)", err)
+        harness_locs = re.findall(r"panicked at (/verif/|hv/|sync/src|common/src|tok/src|shared/)", err)
+        if died and locs:
+            first = locs[0]
+            msg_lines = [l for l in err.split("\n") if l.strip()]
+            res["violations"] = [{
+                "sig": "%s/engine-died:panic@%s:%s" % (pid, first[0], first[1]),
+                "what": "the process hosting the code under test died (rc=%s) after a panic inside the repository's own code at %s:%s (%d repository panic location(s) in its stderr%s)" % (rc, first[0], first[1], len(locs), "; harness frames panicked too" if harness_locs else ""),
+                "count": 1,
+                "example": {"stderr_tail": "\n".join(msg_lines[-12:])[-1500:], "rc": rc},
+                "replay": list(cmd[1:]),
+            }]
     res["_engine"] = eng.get("tag", name)
     res["_wall"] = wall
     res["_stderr_tail"] = err[-800:]
